@@ -120,7 +120,7 @@ def check(ctx):
                            construct="%s/encode-broker-only/%s" % (e.func, e.a["cls"].split(".")[-1]), msg="%s encoded in %s" % (e.a["cls"], tr.label()))
     ctx.count("write_events", nw)
     ctx.count("write_sites", len(sites))
-    ctx.floor("transport.write sites", len(sites), 6)
+    ctx.floor("transport.write sites", len(sites), 3)
 
 
 def hd_loc(a, cls, x, tr):
